@@ -134,7 +134,7 @@ class World:
             cls.__module__ = self.modname
             cls._tcv_key = key
             self.classes[key] = cls
-        for name in ('Auto1', 'Auto2', 'Auto3', 'AutoSet', 'Plain1', 'Hand1', 'MemBox', 'MemBag'):
+        for name in ('Auto1', 'Auto2', 'Auto3', 'AutoSet', 'AutoBoth', 'Plain1', 'Hand1', 'MemBox', 'MemBag'):
             mod.__dict__[name].__module__ = self.modname
         self.module = mod
         public = [n for n in mod.__dict__ if not n.startswith('_')]
@@ -830,6 +830,16 @@ class AutoSet(_h.AutoParameterObject):
 
     def _tcv_state(self):
         return {'items': sorted(self.items)}
+
+
+class AutoBoth(_h.AutoParameterObject):
+    """keeps the raw argument in `_cols` and ALSO exposes a derived public `cols`: the representation uses the raw one"""
+    def __init__(self, cols):
+        self._cols = cols
+        self.cols = tuple(sorted(cols, key=repr))
+
+    def _tcv_state(self):
+        return {'cols': list(self._cols)}
 
 
 class Plain1:
